@@ -44,3 +44,11 @@ Theorem C06_restore_gateway_idempotent : forall c n g g', tc_refs c = true -> tr
   tr_writes (restore_gateway c (apply_writes n (tr_writes (restore_gateway c n g))) g') = [].
 Proof. exact restore_gateway_again. Qed.
 Print Assumptions C06_restore_gateway_idempotent.
+
+(* a reconcile that changes a Service while routing traffic persists a fresh timestamp: the grace wait of the next
+   reconcile is measured on the status, so a restarted controller waits exactly like one that kept running *)
+Theorem C06_wait_survives_restart : forall t u w br cur n g o,
+  canary_step_tr t u w br cur n g [] = CrOut o -> su_state u = StTraffic -> co_err o = false ->
+  existsb is_service_write_w (co_writes o) = true -> su_elapsed (co_sub o) = false.
+Proof. exact traffic_service_change_is_persisted. Qed.
+Print Assumptions C06_wait_survives_restart.
